@@ -901,7 +901,9 @@ def sparsifyPlans (cfg : Cfg) (c a : Bool) (s : List Inter) : Except Err (List P
 /-! ## Densify -/
 
 inductive DMethod where
-  | lookup
+  /-- the look-up table lives in the filter object: `prior` = the keys it was already asked for by
+  earlier `filter()` calls of the same object, in order -/
+  | lookup (prior : List String)
   /-- `crc32(key) % n_feats`, given as a table (the theorems hold for every table) -/
   | hashing (table : List (String × Nat))
   deriving Repr, Inhabited
@@ -922,7 +924,7 @@ def assocGet (k : String) : List (String × Nat) → Option Nat
 def denseIndex (m : DMethod) (st : DState) (k : String) : Except Err (DState × Nat) :=
   match m with
   | .hashing tbl => match assocGet k tbl with | some i => .ok (st, i) | none => .error .unmodelled
-  | .lookup =>
+  | .lookup _ =>
     match assocGet k st.table with
     | some i => .ok (st, i)
     | none => match st.fresh with
@@ -981,7 +983,16 @@ def densifyPlans (cfg : Cfg) (m : DMethod) (n : Nat) (c a : Bool) (s : List Inte
             | .ok ps => .ok ({ context := ctx, actions := acts, action := act,
                                polR := if changed && rC then .generic else .keep,
                                polF := if changed && fC then .generic else .keep } :: ps)
-  go { table := [], fresh := lookupStream n (if n == 0 then 0 else 64 / n + 2) (Coba.C05.normInt 1) } s
+  let st0 : DState := { table := [], fresh := lookupStream n (if n == 0 then 0 else 192 / n + 2) (Coba.C05.normInt 1) }
+  -- keys handed out by earlier calls keep their slots
+  let primed : Except Err DState := match m with
+    | .lookup prior => prior.foldl (fun acc k => match acc with
+        | .error e => .error e
+        | .ok st => match denseIndex m st k with | .ok (st', _) => .ok st' | .error e => .error e) (.ok st0)
+    | _ => .ok st0
+  match primed with
+  | .error e => .error e
+  | .ok st1 => go st1 s
 
 /-! ## Noise -/
 
